@@ -13,7 +13,7 @@ import z3
 from . import extract, seqops
 from .core import Infeasible, PyRaise
 from .interp_stmt import _Return, _ItemsView
-from .values import (BoundMethod, Closure, DictCell, EnumerateV, ExcV, F32, F64, MapCell, ObjCell, OldView, Opaque,
+from .values import (BoundMethod, Closure, DictCell, EnumerateV, ExcV, F32, F64, MapCell, MapElem, ObjCell, OldView, Opaque,
                      RNE, RangeV, Ref, SeqCell, SeqV, SuperV, Sym, Unsupported, fpval, is_scalar, kind_of, mk, sort_of,
                      to_term)
 
@@ -136,8 +136,22 @@ class CallMixin:
         return None
 
     def get_attr(self, base, name):
+        if isinstance(base, MapElem):
+            cell = self.old_heap[base.map_ref.addr] if base.old else self.path.cell(base.map_ref)
+            if name in cell.fields:
+                kind, arr = cell.fields[name]
+                t = z3.Select(arr, base.key)
+                return Sym(kind, t)
+            if name == "__class__":
+                return cell.refcls
+            m = self.find_method(cell.refcls, name)
+            if m is None:
+                raise PyRaise(ExcV(AttributeError, (name,)))
+            return self._bind(m[0], m[1], base, cell.refcls)
         if isinstance(base, OldView):
             cell = self.old_heap[base.ref.addr]
+            if isinstance(cell, MapCell):
+                return BoundMethod(("dict", name), base)
             return self._wrap_old(self._obj_attr(base.ref, cell, name, old=True))
         if isinstance(base, Ref):
             cell = self.path.cell(base)
@@ -205,6 +219,8 @@ class CallMixin:
             ga = self.find_method(cell.cls, "__getattr__")
             if ga is not None:
                 return self.call_value(BoundMethod(ga[0], ref, ga[1]), [name], {})
+            if getattr(cell, "partial", False) and getattr(self, "spec_depth", 0) == 0 and getattr(self, "pure_depth", 0) == 0:
+                raise Unsupported(f"the code reads the instance field '{name}' of {cell.cls.__name__}, which the contract's input shape does not describe")
             raise PyRaise(ExcV(AttributeError, (name,)))
         return self._bind(m[0], m[1], OldView(ref) if old else ref, cell.cls)
 
@@ -231,6 +247,16 @@ class CallMixin:
         return self.lift(attr)
 
     def set_attr(self, base, name, v):
+        if isinstance(base, MapElem):
+            if base.old:
+                raise Unsupported("assignment to the pre-state")
+            cell = self.path.cell(base.map_ref)
+            if name not in cell.fields:
+                raise Unsupported(f"new attribute {name} on an object of a symbolic map")
+            kind, arr = cell.fields[name]
+            cell.fields = dict(cell.fields)
+            cell.fields[name] = (kind, z3.Store(arr, base.key, to_term(v, kind)))
+            return
         if isinstance(base, Ref):
             cell = self.path.cell(base)
             if isinstance(cell, ObjCell):
